@@ -216,8 +216,13 @@ func newTagProg(id string, r *rand.Rand, coverFrom int, _ bool) *tagGen {
 			if r.Intn(2) == 0 {
 				// same JSON KEY as a promoted field (two levels down): like encoding/json, the
 				// shallower field hides the promoted one
+				tag := `json:"audit_by"`
+				if r.Intn(2) == 0 {
+					tag = `json:"audit_by" gomacro:"ignore"` // ignored by gomacro, still serialised by Go: it hides the promoted field all the same
+					p.Feature("tagprog:ignored-outer-field-hides-promoted-json-key")
+				}
 				for _, d := range []*Decl{st.a, st.b} {
-					d.Fields = append(d.Fields, &Field{Name: "Headline", Type: Basic("string"), Tag: `json:"audit_by"`})
+					d.Fields = append(d.Fields, &Field{Name: "Headline", Type: Basic("string"), Tag: tag})
 				}
 				p.Feature("tagprog:outer-field-hides-promoted-json-key")
 			}
